@@ -1,9 +1,536 @@
+// vx: driver for the solver-based checks (Engine 1: symbolic execution of go/ssa).
+//
+//	vx check <Cxx> [-tier quick|thorough] [-only H_name] [-workers N] [-solver z3|z3-new|cvc5]
+//	vx replay <replay.json>
 package main
 
 import (
+	"crypto/sha256"
+	"encoding/hex"
+	"encoding/json"
+	"flag"
 	"fmt"
-	_ "golang.org/x/tools/go/packages"
-	_ "golang.org/x/tools/go/ssa"
+	"os"
+	"os/exec"
+	"path/filepath"
+	"runtime/debug"
+	"runtime/pprof"
+	"sort"
+	"strings"
+	"time"
+
+	"golang.org/x/tools/go/ssa"
+	vexec "vx/exec"
+	"vx/load"
 )
 
-func main() { fmt.Println("vx") }
+const verifDir = "/verif"
+
+type TierCfg struct {
+	Params     map[string]int `json:"params"`
+	Harnesses  []string       `json:"harnesses"`
+	MaxSteps   int            `json:"maxSteps"`
+	MaxIter    int            `json:"maxIter"`
+	MaxDepth   int            `json:"maxDepth"`
+	MaxPaths   int            `json:"maxPaths"`
+	SplitDepth int            `json:"splitDepth"`
+	TimeoutS   int            `json:"timeout_s"`
+	QueryMs    int            `json:"query_ms"`
+}
+
+type CheckCfg struct {
+	Property    string             `json:"property"`
+	Dir         string             `json:"dir"`     // package dir relative to /repo
+	PkgName     string             `json:"pkgname"` // package clause
+	Level       string             `json:"level"`
+	Tiers       map[string]TierCfg `json:"tiers"`
+	Vacuity     []string           `json:"vacuity"`      // harnesses that must be violated (reachability twins)
+	Reach       []string           `json:"reach"`        // vxReach labels that must be hit
+	PanicOK     []string           `json:"panic_ok"`     // harnesses where an uncaught panic is not a violation
+	Assumptions []string           `json:"assumptions"`  // free text, copied into evidence
+	Outside     []string           `json:"outside"`      // free text: outside the claim
+	Overlays    map[string]string  `json:"src_overlays"` // repo-relative file -> sed-like "old=>new" one-line source overlay
+}
+
+type Known struct {
+	Property string `json:"property"`
+	Status   string `json:"status"` // known | fixed
+	Harness  string `json:"harness,omitempty"`
+	Match    string `json:"match"` // substring of the violation message / tag
+	What     string `json:"what"`
+	Commit   string `json:"commit,omitempty"`
+}
+
+func main() {
+	if len(os.Args) < 2 {
+		fmt.Fprintln(os.Stderr, "usage: vx check <Cxx> | vx replay <file>")
+		os.Exit(2)
+	}
+	switch os.Args[1] {
+	case "check":
+		os.Exit(cmdCheck(os.Args[2:]))
+	case "replay":
+		os.Exit(cmdReplay(os.Args[2:]))
+	default:
+		fmt.Fprintln(os.Stderr, "unknown command")
+		os.Exit(2)
+	}
+}
+
+func readCfg(prop string) (*CheckCfg, error) {
+	data, err := os.ReadFile(filepath.Join(verifDir, "harness", prop, "check.json"))
+	if err != nil {
+		return nil, err
+	}
+	var c CheckCfg
+	if err := json.Unmarshal(data, &c); err != nil {
+		return nil, fmt.Errorf("check.json: %v", err)
+	}
+	return &c, nil
+}
+
+func harnessFor(prop string, c *CheckCfg) (*load.Harness, error) {
+	h := &load.Harness{RepoDir: "/repo", PkgDir: c.Dir, PkgName: c.PkgName, Files: map[string]string{}}
+	matches, _ := filepath.Glob(filepath.Join(verifDir, "harness", prop, "*.go"))
+	for _, m := range matches {
+		h.Files["zz_vx_"+prop+"_"+filepath.Base(m)] = m
+	}
+	if len(h.Files) == 0 {
+		return nil, fmt.Errorf("no harness files for %s", prop)
+	}
+	return h, nil
+}
+
+func srcOverlays(c *CheckCfg) (map[string][]byte, []string, error) {
+	out := map[string][]byte{}
+	var notes []string
+	for rel, rule := range c.Overlays {
+		parts := strings.SplitN(rule, "=>", 2)
+		if len(parts) != 2 {
+			return nil, nil, fmt.Errorf("bad overlay rule %q", rule)
+		}
+		path := filepath.Join("/repo", rel)
+		data, err := os.ReadFile(path)
+		if err != nil {
+			return nil, nil, err
+		}
+		if strings.Count(string(data), parts[0]) != 1 {
+			return nil, nil, fmt.Errorf("overlay rule %q does not match exactly once in %s", parts[0], rel)
+		}
+		out[path] = []byte(strings.Replace(string(data), parts[0], parts[1], 1))
+		notes = append(notes, fmt.Sprintf("source overlay on %s: %q => %q", rel, parts[0], parts[1]))
+	}
+	return out, notes, nil
+}
+
+func cmdCheck(args []string) int {
+	fs := flag.NewFlagSet("check", flag.ExitOnError)
+	tier := fs.String("tier", "", "quick|thorough (default: $VERIF_TIER or quick)")
+	only := fs.String("only", "", "run only this harness")
+	workers := fs.Int("workers", 16, "parallel workers")
+	solver := fs.String("solver", "z3lib", "z3lib|z3|z3-new|cvc5")
+	trace := fs.Bool("trace", false, "trace calls")
+	noReplay := fs.Bool("noreplay", false, "skip native replay")
+	cpuprof := fs.String("cpuprofile", "", "write CPU profile")
+	if len(args) < 1 {
+		fmt.Fprintln(os.Stderr, "usage: vx check <Cxx> [flags]")
+		return 2
+	}
+	prop := args[0]
+	fs.Parse(args[1:])
+	if *tier == "" {
+		*tier = os.Getenv("VERIF_TIER")
+	}
+	if *tier != "thorough" {
+		*tier = "quick"
+	}
+	if *cpuprof != "" {
+		f, _ := os.Create(*cpuprof)
+		pprof.StartCPUProfile(f)
+		defer pprof.StopCPUProfile()
+	}
+	debug.SetGCPercent(400)
+	seed := 0
+	fmt.Sscan(os.Getenv("VERIF_SEED"), &seed)
+	start := time.Now()
+
+	c, err := readCfg(prop)
+	if err != nil {
+		fmt.Fprintln(os.Stderr, "vx:", err)
+		return 2
+	}
+	tc, ok := c.Tiers[*tier]
+	if !ok {
+		tc = c.Tiers["quick"]
+	}
+	h, err := harnessFor(prop, c)
+	if err != nil {
+		fmt.Fprintln(os.Stderr, "vx:", err)
+		return 2
+	}
+	extra, ovNotes, err := srcOverlays(c)
+	if err != nil {
+		fmt.Fprintln(os.Stderr, "vx:", err)
+		return 2
+	}
+	t0 := time.Now()
+	prog, pkg, err := load.Load(h, filepath.Join(verifDir, "rt"), extra)
+	if err != nil {
+		fmt.Fprintln(os.Stderr, "vx: load:", err)
+		return 2
+	}
+	loadS := time.Since(t0).Seconds()
+
+	cfg := &vexec.Config{
+		MaxSteps: def(tc.MaxSteps, 2000000), MaxIter: def(tc.MaxIter, 5000), MaxDepth: def(tc.MaxDepth, 200),
+		MaxPaths: tc.MaxPaths, Workers: *workers, SplitDepth: def(tc.SplitDepth, 6), Solver: *solver,
+		TimeoutMs: def(tc.QueryMs, 20000), Params: tc.Params, Trace: *trace,
+	}
+	if tc.TimeoutS > 0 {
+		cfg.Deadline = time.Now().Add(time.Duration(tc.TimeoutS) * time.Second)
+	}
+	names := tc.Harnesses
+	if *only != "" {
+		names = []string{*only}
+	}
+	allH := allHarnessNames(pkg)
+	known := loadKnown(prop)
+
+	type hres = namedStats
+	var results []hres
+	vacOK := map[string]bool{}
+	exit := 0
+	var violLines, knownLines, notes []string
+	violations := 0
+	engineMismatch := 0
+	tracesValidated := 0
+	for _, name := range append(append([]string{}, names...), c.Vacuity...) {
+		fn := pkg.Func(name)
+		if fn == nil {
+			fmt.Fprintf(os.Stderr, "vx: harness %s not found\n", name)
+			return 2
+		}
+		hc := *cfg
+		hc.PanicOK = contains(c.PanicOK, name)
+		st := vexec.RunHarness(prog, &hc, fn)
+		results = append(results, hres{name, st})
+		isVac := contains(c.Vacuity, name) && !contains(names, name)
+		fmt.Printf("harness %-28s paths=%d done=%d assume=%d panic=%d forks=%d queries=%d solver=%.1fs wall=%.1fs violations=%d\n",
+			name, st.Paths, st.PathsDone, st.PathsAssume, st.PathsPanic, st.Forks, st.Queries, st.SolverTime.Seconds(), st.Wall.Seconds(), len(st.Violations))
+		for k, v := range st.Unsupported {
+			fmt.Printf("  INCONCLUSIVE unsupported x%d: %s\n", v, k)
+		}
+		for k, v := range st.Limits {
+			fmt.Printf("  INCONCLUSIVE limit x%d: %s\n", v, k)
+		}
+		if st.Unknowns > 0 || st.SolverErrors > 0 {
+			fmt.Printf("  INCONCLUSIVE solver unknown=%d errors=%d\n", st.Unknowns, st.SolverErrors)
+		}
+		if isVac {
+			vacOK[name] = len(st.Violations) > 0
+			if !vacOK[name] {
+				notes = append(notes, "vacuity twin "+name+" was NOT violated: harness may be vacuous")
+				fmt.Printf("  VACUITY-FAILURE: twin %s not violated\n", name)
+			}
+			continue
+		}
+		// confirm violations by native replay
+		for i, v := range st.Violations {
+			if i >= 4 {
+				break
+			}
+			rp := writeReplay(prop, name, v, tc.Params)
+			if k := matchKnown(known, name, v); k != nil {
+				knownLines = append(knownLines, fmt.Sprintf("KNOWN-FINDING: property=%s %s", prop, k.What))
+				continue
+			}
+			if *noReplay {
+				violLines = append(violLines, fmt.Sprintf("VIOLATION property=%s replay=%s", prop, rp))
+				violations++
+				continue
+			}
+			out, verdict := nativeReplay(h, c, allH, name, rp, extra)
+			switch verdict {
+			case "FAIL", "PANIC":
+				tracesValidated++
+				violations++
+				violLines = append(violLines, fmt.Sprintf("VIOLATION property=%s replay=%s", prop, rp))
+				fmt.Printf("  violation confirmed natively (%s): %s :: %s\n", verdict, v.Msg, summarize(v))
+			default:
+				engineMismatch++
+				fmt.Printf("  ENGINE-MISMATCH: %s not reproduced natively (%s): %s\n    %s\n", v.Msg, verdict, summarize(v), lastLines(out, 6))
+			}
+		}
+	}
+	// required reach labels
+	reachAll := map[string]int{}
+	for _, r := range results {
+		for k, v := range r.St.Reach {
+			reachAll[k] += v
+		}
+	}
+	for _, lbl := range c.Reach {
+		if reachAll[lbl] == 0 && *only == "" {
+			notes = append(notes, "reach label never hit: "+lbl)
+			fmt.Printf("  REACH-FAILURE: label %q never reached\n", lbl)
+		}
+	}
+	// dedupe known lines
+	sort.Strings(knownLines)
+	knownLines = uniq(knownLines)
+	for _, l := range knownLines {
+		fmt.Println(l)
+	}
+	for _, l := range uniq(violLines) {
+		fmt.Println(l)
+	}
+	if violations > 0 {
+		exit = 1
+	}
+
+	// evidence
+	ev := buildEvidence(prop, *tier, seed, c, tc, results0(results), ovNotes, notes, prog, loadS, violations, engineMismatch, tracesValidated, len(knownLines), time.Since(start).Seconds(), *solver)
+	if *only == "" {
+		os.MkdirAll(filepath.Join(verifDir, "evidence"), 0o755)
+		data, _ := json.MarshalIndent(ev, "", " ")
+		os.WriteFile(filepath.Join(verifDir, "evidence", prop+".json"), data, 0o644)
+	}
+	fmt.Printf("%s %s: exit=%d wall=%.1fs\n", prop, *tier, exit, time.Since(start).Seconds())
+	return exit
+}
+
+type namedStats struct {
+	Name string
+	St   *vexec.Stats
+}
+
+func results0(in []namedStats) []namedStats { return in }
+
+func def(v, d int) int {
+	if v == 0 {
+		return d
+	}
+	return v
+}
+
+func contains(l []string, s string) bool {
+	for _, x := range l {
+		if x == s {
+			return true
+		}
+	}
+	return false
+}
+
+func uniq(l []string) []string {
+	var out []string
+	seen := map[string]bool{}
+	for _, x := range l {
+		if !seen[x] {
+			seen[x] = true
+			out = append(out, x)
+		}
+	}
+	return out
+}
+
+func allHarnessNames(pkg *ssa.Package) []string {
+	var out []string
+	for name, m := range pkg.Members {
+		if f, ok := m.(*ssa.Function); ok && strings.HasPrefix(name, "H_") && f.Signature.Params().Len() == 0 {
+			out = append(out, name)
+		}
+	}
+	sort.Strings(out)
+	return out
+}
+
+func summarize(v vexec.Violation) string {
+	var parts []string
+	for _, in := range v.Inputs {
+		switch in.Call {
+		case "vxString", "vxStringN", "vxBytes":
+			b := make([]byte, len(in.Vals))
+			for i, x := range in.Vals {
+				b[i] = byte(x)
+			}
+			parts = append(parts, fmt.Sprintf("%q", string(b)))
+		default:
+			if len(in.Vals) == 1 {
+				parts = append(parts, fmt.Sprintf("%s=%d", strings.TrimPrefix(in.Call, "vx"), in.Vals[0]))
+			}
+		}
+	}
+	s := strings.Join(parts, " ")
+	if len(s) > 300 {
+		s = s[:300] + "..."
+	}
+	return s
+}
+
+func lastLines(s string, n int) string {
+	ls := strings.Split(strings.TrimSpace(s), "\n")
+	if len(ls) > n {
+		ls = ls[len(ls)-n:]
+	}
+	return strings.Join(ls, "\n    ")
+}
+
+// ---------------------------------------------------------------- known findings
+
+func loadKnown(prop string) []Known {
+	data, err := os.ReadFile(filepath.Join(verifDir, "known_findings.json"))
+	if err != nil {
+		return nil
+	}
+	var all []Known
+	if json.Unmarshal(data, &all) != nil {
+		return nil
+	}
+	var out []Known
+	for _, k := range all {
+		if k.Property == prop && k.Status == "known" {
+			out = append(out, k)
+		}
+	}
+	return out
+}
+
+func matchKnown(ks []Known, harness string, v vexec.Violation) *Known {
+	for i := range ks {
+		k := &ks[i]
+		if k.Harness != "" && k.Harness != harness {
+			continue
+		}
+		if strings.Contains(v.Msg, k.Match) {
+			return k
+		}
+		for _, t := range v.Tags {
+			if t == k.Match {
+				return k
+			}
+		}
+	}
+	return nil
+}
+
+// ---------------------------------------------------------------- replay
+
+type replayFile struct {
+	Property string           `json:"property"`
+	Harness  string           `json:"harness"`
+	Kind     string           `json:"kind"`
+	Msg      string           `json:"msg"`
+	Inputs   []vexec.InputVal `json:"inputs"`
+	Params   map[string]int   `json:"params"`
+	Summary  string           `json:"summary"`
+}
+
+func writeReplay(prop, harness string, v vexec.Violation, params map[string]int) string {
+	rf := replayFile{Property: prop, Harness: harness, Kind: v.Kind, Msg: v.Msg, Inputs: v.Inputs, Params: params, Summary: summarize(v)}
+	data, _ := json.MarshalIndent(rf, "", " ")
+	sum := sha256.Sum256(data)
+	dir := filepath.Join(verifDir, "replays", prop)
+	os.MkdirAll(dir, 0o755)
+	p := filepath.Join(dir, harness+"-"+hex.EncodeToString(sum[:6])+".json")
+	os.WriteFile(p, data, 0o644)
+	return p
+}
+
+func nativeReplay(h *load.Harness, c *CheckCfg, harnesses []string, name, replayPath string, extra map[string][]byte) (string, string) {
+	tmp, err := os.MkdirTemp("", "vxreplay")
+	if err != nil {
+		return err.Error(), "ERROR"
+	}
+	defer os.RemoveAll(tmp)
+	ov, err := h.Overlay(filepath.Join(verifDir, "rt"), true, harnesses)
+	if err != nil {
+		return err.Error(), "ERROR"
+	}
+	for k, v := range extra {
+		ov[k] = v
+	}
+	repl := map[string]string{}
+	i := 0
+	for virt, data := range ov {
+		real := filepath.Join(tmp, fmt.Sprintf("f%d_%s", i, filepath.Base(virt)))
+		i++
+		os.WriteFile(real, data, 0o644)
+		repl[virt] = real
+	}
+	oj, _ := json.Marshal(map[string]interface{}{"Replace": repl})
+	ovPath := filepath.Join(tmp, "overlay.json")
+	os.WriteFile(ovPath, oj, 0o644)
+	cmd := exec.Command("go", "test", "-vet=off", "-count=1", "-run", "^TestVxReplay$", "-v", "-timeout", "120s", "-overlay", ovPath, "./"+c.Dir)
+	cmd.Dir = "/repo"
+	cmd.Env = append(os.Environ(), "GOFLAGS=-mod=mod", "GOPROXY=off", "GOSUMDB=off", "GOTOOLCHAIN=local", "VX_REPLAY="+replayPath, "VX_HARNESS="+name)
+	out, _ := cmd.CombinedOutput()
+	s := string(out)
+	for _, line := range strings.Split(s, "\n") {
+		if strings.HasPrefix(line, "VX-REPLAY: ") {
+			f := strings.Fields(line)
+			if len(f) >= 2 {
+				return s, f[1]
+			}
+		}
+	}
+	if strings.Contains(s, "panic:") || strings.Contains(s, "fatal error:") {
+		return s, "PANIC"
+	}
+	return s, "NOVERDICT"
+}
+
+func cmdReplay(args []string) int {
+	if len(args) < 1 {
+		fmt.Fprintln(os.Stderr, "usage: vx replay <file>")
+		return 2
+	}
+	data, err := os.ReadFile(args[0])
+	if err != nil {
+		fmt.Fprintln(os.Stderr, err)
+		return 2
+	}
+	var rf replayFile
+	if err := json.Unmarshal(data, &rf); err != nil {
+		fmt.Fprintln(os.Stderr, err)
+		return 2
+	}
+	c, err := readCfg(rf.Property)
+	if err != nil {
+		fmt.Fprintln(os.Stderr, err)
+		return 2
+	}
+	h, err := harnessFor(rf.Property, c)
+	if err != nil {
+		fmt.Fprintln(os.Stderr, err)
+		return 2
+	}
+	extra, _, err := srcOverlays(c)
+	if err != nil {
+		fmt.Fprintln(os.Stderr, err)
+		return 2
+	}
+	// harness names: parse from files (cheap: look for "func H_")
+	var names []string
+	for _, real := range h.Files {
+		src, _ := os.ReadFile(real)
+		for _, line := range strings.Split(string(src), "\n") {
+			if strings.HasPrefix(line, "func H_") {
+				n := strings.TrimPrefix(line, "func ")
+				if i := strings.Index(n, "("); i > 0 {
+					names = append(names, n[:i])
+				}
+			}
+		}
+	}
+	sort.Strings(names)
+	abs, _ := filepath.Abs(args[0])
+	out, verdict := nativeReplay(h, c, names, rf.Harness, abs, extra)
+	fmt.Println(lastLines(out, 15))
+	fmt.Printf("replay of %s (%s): %s — %s\n", rf.Harness, rf.Summary, verdict, rf.Msg)
+	if verdict == "FAIL" || verdict == "PANIC" {
+		fmt.Printf("VIOLATION property=%s replay=%s\n", rf.Property, abs)
+		return 1
+	}
+	return 0
+}
